@@ -36,8 +36,16 @@ def modules(A, B):
 
 
 def script_for(hist, A, B):
-    items = [("M", modules(A, B)), ("c", "I")]
-    checks = [None, ("ok",)]
+    text = modules(A, B)
+    lk = hist[0]
+    mixed = lk["a"] == "link" and lk.get("ih", lk["i"]) != lk["i"]
+    if mixed:       # helper module first with its own interface, the entry module is loaded and linked afterwards
+        k = text.index("m2: module")
+        items = [("M", text[:k]), ("c", "I"), ("c", "J %s %d" % (lk["ih"], lk["l"])), ("M", text[k:]), ("c", "S")]
+        checks = [None, ("ok",), ("ok",), None, ("ok",)]
+    else:
+        items = [("M", text), ("c", "I")]
+        checks = [None, ("ok",)]
     buf = {"eA": progs.cells_bytes(A["buf0"])[0].hex(), "eB": progs.cells_bytes(B["buf0"])[0].hex()}
     for st in hist:
         if st["a"] == "link":
@@ -86,7 +94,7 @@ def judge(items, checks, outs, died, A, B):
 
 
 def hist_key(h):
-    return ">".join((s["i"] + str(s["l"])) if s["a"] == "link" else (s["e"] + ("@api" if s["via"] == "api" else "")) for s in h)
+    return ">".join((s["i"] + ("/" + s["ih"] if s.get("ih", s["i"]) != s["i"] else "") + str(s["l"])) if s["a"] == "link" else (s["e"] + ("@api" if s["via"] == "api" else "")) for s in h)
 
 
 def run(tier, only=None):
@@ -126,9 +134,9 @@ def run(tier, only=None):
         results = list(ex.map(do, jobs))
     byif = collections.Counter()
     for (hst, A, B), msg in results:
-        byif[hst[0]["i"] + str(hst[0]["l"])] += 1
+        byif[hst[0]["i"] + ("/" + hst[0]["ih"] if hst[0].get("ih", hst[0]["i"]) != hst[0]["i"] else "") + str(hst[0]["l"])] += 1
         if msg:
-            ck.violation("exec:%s:%s" % (hst[0]["i"], msg.split(" (step")[0][:50].replace(" ", "_")),
+            ck.violation("exec:%s:%s" % (hst[0]["i"] + ("+" + hst[0]["ih"] if hst[0].get("ih", hst[0]["i"]) != hst[0]["i"] else ""), msg.split(" (step")[0][:50].replace(" ", "_")),
                          "history %s: %s" % (hist_key(hst), msg), {"hist": hst, "A": A, "B": B, "text": modules(A, B)})
     ck.setc("histories", len(hists)); ck.setc("traces_validated_against_impl", len(jobs))
     ck.setc("by_interface", dict(byif)); ck.setc("program_pool", len(pool))
